@@ -67,7 +67,15 @@ def gen_cfg(rng, dt, L, kind=None, op=None):
         cfg["method"] = "diffuse_field"
     # the azimuths of a sweep are usually whole degrees held in whatever np.arange / a JSON file / a loop produced: a share
     # of the cases uses whole (or half) degrees and hands them over as another numeric type holding the same values
-    if kind in ("rotdpp", "azimuthal") and rng.random() < 0.3:
+    if kind == "rotdpp" and rng.random() < 0.25:
+        # a sweep may name a direction more than once: both end points of linspace(0, 180, k), a full circle (every line
+        # twice), an entry repeated by hand - the percentile is over the azimuths as REQUESTED
+        sets = [np.array([0.0, 90.0, 180.0]), np.linspace(0, 180, int(rng.integers(3, 8))), np.arange(0.0, 360.0, float(rng.choice([30, 45, 60]))),
+                np.array([20.0, 75.0, 75.0, 130.0]), np.sort(np.concatenate([rng.uniform(0, 180, 3), rng.uniform(0, 180, 2) + 180.0])),
+                np.array([10.0, 10.0, 10.0, 100.0])]
+        cfg["azimuths"] = sets[int(rng.integers(0, len(sets)))]
+        cfg["percentile"] = float(rng.choice([35.0, 20.0, 80.0, 65.0, float(rng.uniform(5, 95))]))
+    elif kind in ("rotdpp", "azimuthal") and rng.random() < 0.3:
         k = len(cfg["azimuths"])
         cfg["azimuths"] = np.sort(rng.choice(np.arange(0, 180, 5.0), size=k, replace=False))
         cfg["azimuths_dtype"] = gen.vector_dtype_form(rng, cfg["azimuths"])[1]
